@@ -3,7 +3,7 @@
 # remove the seeder's worktree, confirm the seed independently (tools/confirm_seed.sh) and run the property's quick check against it.
 p=$1; n=$2; shift 2
 cd /verif
-d=/tmp/seed-${p}b
+d=/tmp/seed-${p}${SEED_SUFFIX:-b}
 if [ -d $d/seed ]; then mkdir -p seeded/$p-$n; cp $d/seed/patch.diff $d/seed/meta.json seeded/$p-$n/; cp $d/seed/demo.* seeded/$p-$n/; git -C /repo worktree remove --force $d; fi
 bash tools/confirm_seed.sh $p-$n 2>&1 | tail -1 | cut -c1-400
 bash tools/try_seed.sh $p-$n $p "$@" 2>&1 | cut -c1-500
